@@ -20,9 +20,11 @@ import (
 // rank → version string, strictly increasing in each ecosystem's own order (checked at start-up
 // with the comparator the implementation uses). Rank 0 is the literal "0".
 var versions = map[int][]string{
-	0: {"0", "1.0.0-alpha", "1.0.0-alpha.1", "1.0.0-rc.1", "1.0.0", "1.0.1", "1.1.0", "1.2.0", "1.10.0", "2.0.0-beta", "2.0.0", "2.1.0", "3.0.0", "10.0.0"},
-	1: {"0", "1.0-alpha-1", "1.0-beta-1", "1.0-rc1", "1.0", "1.0.1", "1.1", "1.2", "1.10", "2.0-rc1", "2.0", "2.1", "3.0", "10.0"},
-	2: {"0", "1.0.dev1", "1.0a1", "1.0rc1", "1.0", "1.0.post1", "1.1", "1.2", "1.10", "2.0b1", "2.0", "2.1", "3.0", "10.0"},
+	// rank 1 is a real version that the ecosystem orders BELOW the literal "0" (a pre-release of zero):
+	// the OSV rule "introduced 0 precedes every version" must hold for it too.
+	0: {"0", "0.0.0-alpha", "1.0.0-alpha.1", "1.0.0-rc.1", "1.0.0", "1.0.1", "1.1.0", "1.2.0", "1.10.0", "2.0.0-beta", "2.0.0", "2.1.0", "3.0.0", "10.0.0"},
+	1: {"0", "0-alpha-1", "1.0-beta-1", "1.0-rc1", "1.0", "1.0.1", "1.1", "1.2", "1.10", "2.0-rc1", "2.0", "2.1", "3.0", "10.0"},
+	2: {"0", "0.dev1", "1.0a1", "1.0rc1", "1.0", "1.0.post1", "1.1", "1.2", "1.10", "2.0b1", "2.0", "2.1", "3.0", "10.0"},
 }
 var systems = map[int]resolve.System{0: resolve.NPM, 1: resolve.Maven, 2: resolve.PyPI, 3: resolve.UnknownSystem}
 var ecoNames = map[int]string{0: "npm", 1: "Maven", 2: "PyPI", 3: "crates.io"}
@@ -268,6 +270,10 @@ func main() {
 				fmt.Fprintf(os.Stderr, "version table of ecosystem %d not increasing at %d\n", eco, i)
 				os.Exit(2)
 			}
+		}
+		if sv.Compare(tab[1], "0") >= 0 {
+			fmt.Fprintf(os.Stderr, "rank 1 of ecosystem %d is not below the literal 0\n", eco)
+			os.Exit(2)
 		}
 	}
 	if o.Replay != "" {
